@@ -87,6 +87,7 @@ class PopenFuture(concurrent.futures.Future):
                 # ensure process is properly cleaned up for any exception or timeout
                 if self.process:
                     self.cancel()
+                    self._close_streams()
 
                 self.set_result((self.stdout, self.stderr, self.returncode))
 
@@ -130,6 +131,14 @@ class PopenFuture(concurrent.futures.Future):
         except psutil.NoSuchProcess:
             # process already terminated, nothing to do
             pass
+
+    def _close_streams(self):
+        """Closes the pipes of the (terminated) process.
+
+        Only called by the worker thread, after communicate() has returned: closing them from
+        another thread while communicate() is still reading lets the file descriptor numbers be
+        reused under it (it then consumes the data of unrelated files, e.g. the /proc files
+        that psutil reads in order to kill other processes)."""
 
         # ensure file descriptors are closed after process termination.
         # note: when a process is killed via psutil, the file descriptors remain open on the Python side,
